@@ -59,7 +59,7 @@ fn post(rep: &Report, _t: Tier) -> Vec<String> {
             out.push(format!("policy clause {:?} is never the first failing clause of an explored input", c));
         }
     }
-    for fam in ["L1", "L1r", "L2", "L2pair", "L2types", "L2class", "L2len", "L4", "L5"] {
+    for fam in ["L1", "L1r", "L2", "L2pair", "L2types", "L2class", "L2len", "L2field", "L4", "L5"] {
         if !rep.classes.contains_key(&format!("{}:accepted", fam)) {
             out.push(format!("family {} contains no accepted packet", fam));
         }
@@ -318,6 +318,16 @@ fn run(ctx: &mut Ctx, rep: &mut Report, mode: Mode) {
             let sw = unsafe { &mut *ctxp };
             if sw.ctx.mine(i) {
                 sw.one("L2len", p);
+            }
+        });
+    }
+    // every value of every count, every pointer target, every leading byte pair of a name
+    {
+        let ctxp: *mut Sweep = &mut sw;
+        field_value_packets(|i, p| {
+            let sw = unsafe { &mut *ctxp };
+            if sw.ctx.mine(i) {
+                sw.one("L2field", p);
             }
         });
     }
